@@ -104,9 +104,47 @@ Ltac k_induct names :=
   end;
   cbn [range_loop map existsb forallb]; [k_done | k_destruct_tuples; k_loop_step names].
 
+(* a loop that only accumulates (its body never leaves it): it is a left fold; induction from the
+   right, where the induction hypothesis speaks about the same initial state *)
+Ltac k_noexit names :=
+  intros; k_destruct_tuples; names; k_beta;
+  repeat match goal with |- context [if ?c then _ else _] => destruct c end;
+  eexists; reflexivity.
+
+Ltac k_fold_hyps :=
+  repeat match goal with
+         | H : Forall _ (_ ++ _) |- _ => apply Forall_app in H; destruct H
+         | H : Forall _ [_] |- _ => inversion H; subst; clear H
+         | H : Forall _ [] |- _ => clear H
+         | H : _ /\ _ |- _ => destruct H
+         end.
+
+Ltac k_fold names :=
+  match goal with
+  | |- context [range_loop ?body ?l ?s0] =>
+      rewrite (range_loop_noexit body l s0) by k_noexit names
+  end;
+  match goal with
+  | |- context [fold_left _ (map _ ?xs) _] => is_var xs; induction xs as [|? ? IH] using rev_ind
+  | |- context [fold_left _ ?xs _] => is_var xs; induction xs as [|? ? IH] using rev_ind
+  end;
+  [ cbn [fold_left map existsb forallb]; k_done
+  | rewrite ?map_app, ?fold_left_app, ?existsb_app, ?forallb_app;
+    cbn [fold_left map existsb forallb lnext] in *;
+    k_fold_hyps;
+    repeat match goal with
+           | IH : ?P -> _, H : ?P |- _ => specialize (IH H)
+           end;
+    repeat match goal with
+           | |- context [fold_left ?f ?l ?s] => generalize dependent (fold_left f l s); intros
+           end;
+    k_destruct_tuples; names; k_beta; k_unfold_arith; k_wrap; k_splits;
+    k_bool_atoms; cbn [andb orb negb xorb Bool.eqb] in *;
+    first [congruence | lia | k_done] ].
+
 (* everything: comparisons outside the loops first, then each remaining goal by induction *)
 Ltac k_auto names :=
-  k_hyps; k_unfold_arith; k_wrap; k_splits; first [k_done | k_induct names].
+  k_hyps; k_unfold_arith; k_wrap; k_splits; first [k_done | k_induct names | k_fold names].
 
 (* a loop that updates variables: `spec` says, in the model's terms, what the loop does from an
    arbitrary state: spec (model list) state = LDone state' / LReturn result.  Proved by induction
